@@ -196,6 +196,9 @@ func runC16(res *result) {
 		desc string
 		pub  []mwSpec
 		sub  []mwSpec
+		// subscriber-side outcome: what the transport must get back from the callback
+		checkCallback bool
+		handlerFails  bool
 	}
 	var pexps []pexp
 	pointRT := r.Resolve(main, idl.T("Point"))
@@ -221,6 +224,27 @@ func runC16(res *result) {
 			e.desc = fmt.Sprintf("Plain.Noted middleware at %s: %s", point, describeList(l))
 			plan.Ops = append(plan.Ops, drvOp{Op: "call", Call: cs})
 			pexps = append(pexps, e)
+		}
+	}
+	// the subscriber side's "other side" is the transport: the error the handler returned, or the one a
+	// middleware substituted, is what the callback hands back (plain and errorable subscriptions)
+	for _, l := range mwLists(maxLen, []string{"observe", "replace-error", "short-circuit"}) {
+		for _, errorable := range []bool{false, true} {
+			for _, fails := range []bool{false, true} {
+				if fails && !errorable {
+					continue
+				}
+				cs := &callSpec{Kind: "pubsub", Scope: "Plain", Op: "Noted", PayloadRT: pointRT, Payload: pointV(9, "p"), Proto: "binary", Cid: "c",
+					SubMW: prefix(l, "sb-"), SubErrorable: errorable, SubHandlerFails: fails}
+				e := pexp{cs: cs, sub: cs.SubMW, checkCallback: true, handlerFails: fails}
+				kind := "subscriber"
+				if errorable {
+					kind = "errorable-subscriber"
+				}
+				e.desc = fmt.Sprintf("Plain.Noted delivery (handler fails: %v) middleware at %s: %s", fails, kind, describeList(l))
+				plan.Ops = append(plan.Ops, drvOp{Op: "call", Call: cs})
+				pexps = append(pexps, e)
+			}
 		}
 	}
 	res.Nontrivial = int64(len(plan.Ops))
@@ -296,6 +320,29 @@ func runC16(res *result) {
 		point := strings.SplitN(strings.SplitN(e.desc, " at ", 2)[1], ":", 2)[0]
 		if results[i].Panic != "" || cr.Err != "" || cr.ErrKind != "" {
 			res.fail(finding{Key: "C16/call-failed/" + point, Atom: e.desc, IDL: u.texts, Msg: e.desc + ": " + results[i].Panic + cr.Err + cr.ErrKind + cr.ErrMsg})
+			continue
+		}
+		if e.checkCallback {
+			ref := refChain(e.sub, 0, 0, e.handlerFails)
+			var want, got []string
+			for _, t := range ref.trace {
+				p := strings.SplitN(t, ":", 3)
+				want = append(want, p[0]+":"+p[1])
+			}
+			for _, t := range cr.Trace {
+				p := strings.SplitN(t, ":", 3)
+				got = append(got, p[0]+":"+p[1])
+			}
+			if strings.Join(got, " ") != strings.Join(want, " ") || cr.HandlerCalls != ref.handlerCalls {
+				res.fail(finding{Key: "C16/trace/" + point, Atom: e.desc, IDL: u.texts, Msg: fmt.Sprintf("%s: trace %v (handler calls %d), list composition gives %v (handler calls %d)", e.desc, got, cr.HandlerCalls, want, ref.handlerCalls)})
+				continue
+			}
+			wantErr := errText(ref.callerErr)
+			if len(cr.CallbackErrs) != 1 {
+				res.fail(finding{Key: "C16/delivery-count/" + point, Atom: e.desc, IDL: u.texts, Msg: fmt.Sprintf("%s: %d deliveries reached the subscriber callback", e.desc, len(cr.CallbackErrs))})
+			} else if cr.CallbackErrs[0] != wantErr {
+				res.fail(finding{Key: "C16/delivery-error/" + point, Atom: e.desc, IDL: u.texts, Msg: fmt.Sprintf("%s: the transport got %q back from the callback, the chain's outcome is %q", e.desc, cr.CallbackErrs[0], wantErr)})
+			}
 			continue
 		}
 		// expected: publisher chain enter (outermost first) ... then inside it the subscriber chain
